@@ -14,8 +14,26 @@ def main():
     pid = sys.argv[1]; seed = int(sys.argv[2])
     runs = int(sys.argv[3]) if len(sys.argv) > 3 else 150000
     jobs = int(sys.argv[4]) if len(sys.argv) > 4 else 16
-    if pid not in TARGETS:
+    mhv = os.path.join(H, 'target/release/mhv')
+    # every PBT sub of the property is decoded from choice bytes, so each is also a libFuzzer
+    # entry point through the generic target fuzz_any (MHV_FUZZ_SUB=<ID>:<sub>)
+    anysubs = []
+    r = subprocess.run([mhv, 'fuzzsubs', pid], capture_output=True, text=True)
+    if r.returncode == 0:
+        for l in r.stdout.split('\n'):
+            if l.strip():
+                a, b = l.split(); anysubs.append((a, int(b)))
+    if pid not in TARGETS and not anysubs:
         return 0
+    # fixed work per job; server-world cases cost 5-45 ms each under ASan (13 sockets, settle loops),
+    # connection and pure cases well under 1 ms
+    slow = {'C10': 5000, 'C18': 5000, 'C09': 8000, 'C07': 30000, 'C08': 20000}
+    def runs_for(sub):
+        if 'MHV_FUZZ_RUNS_ANY' in os.environ:
+            return int(os.environ['MHV_FUZZ_RUNS_ANY'])
+        if sub == 'server':
+            return 8000
+        return slow.get(pid, 100000)
     env = dict(os.environ, CARGO_NET_OFFLINE='true')
     t0 = time.time()
     b = subprocess.run('cargo +nightly fuzz build -O', shell=True, cwd=H, env=env, capture_output=True, text=True)
@@ -26,9 +44,27 @@ def main():
     bindir = os.path.join(H, 'fuzz/target/x86_64-unknown-linux-gnu/release')
     scratch = os.path.join(ROOT, '.scratch', 'fuzz-%s-%d' % (pid, os.getpid()))
     shutil.rmtree(scratch, ignore_errors=True); os.makedirs(scratch)
-    targets = TARGETS[pid]
-    per = max(1, jobs // len(targets))
+    targets = TARGETS.get(pid, [])
+    # half of the jobs (all of them when there is no raw target) go to the choice-byte subs
+    jobs_any = 0 if not anysubs else (jobs if not targets else jobs // 2)
+    per = max(1, (jobs - jobs_any) // len(targets)) if targets else 0
     procs = []
+    subsel = {}
+    for k in range(jobs_any):
+        sub, max_len = anysubs[k % len(anysubs)]
+        t = 'any'; j = k
+        corpus0 = os.path.join(scratch, 'seed-any-' + sub)
+        if not os.path.isdir(corpus0):
+            subprocess.run([mhv, 'corpus-any', str(max_len), corpus0], capture_output=True)
+        cdir = os.path.join(scratch, 'corpus-any-%d' % j); shutil.copytree(corpus0, cdir)
+        stats = os.path.join(scratch, 'stats-any-%d.json' % j)
+        e = dict(env, MHV_FUZZ_SUB='%s:%s' % (pid, sub), MHV_FUZZ_STATS=stats, MHV_ROOT=ROOT, MHV_SCRATCH=os.path.join(scratch, 'ws-%d' % j))
+        cmd = [os.path.join(bindir, 'fuzz_any'), cdir, '-runs=%d' % runs_for(sub), '-seed=%d' % (seed * 1000 + 500 + j), '-len_control=0',
+               '-max_len=%d' % max_len, '-artifact_prefix=' + os.path.join(scratch, 'crash-any-%d-' % j),
+               '-print_final_stats=0', '-verbosity=0', '-timeout=120', '-rss_limit_mb=4096']
+        log = open(os.path.join(scratch, 'log-any-%d.txt' % j), 'w')
+        subsel['crash-any-%d-' % j] = sub
+        procs.append((t, j, subprocess.Popen(cmd, env=e, stdout=log, stderr=log), stats))
     for t in targets:
         corpus0 = os.path.join(scratch, 'seed-' + t)
         subprocess.run([os.path.join(H, 'target/release/mhv'), 'corpus', t, corpus0], capture_output=True)
@@ -58,7 +94,8 @@ def main():
             continue
         seen.add(data)
         rp = os.path.join(ROOT, 'replays', '%s-fuzz-%s.json' % (pid, os.path.basename(a)[-16:]))
-        json.dump({'property': pid, 'sub': 'raw', 'smallbuf': False, 'input': {'bytes': data.hex()}, 'sig': 'fuzz', 'msg': 'input saved by libFuzzer'}, open(rp, 'w'))
+        sub_of = next((v for k, v in subsel.items() if os.path.basename(a).startswith(k)), 'raw')
+        json.dump({'property': pid, 'sub': sub_of, 'smallbuf': False, 'input': {'bytes': data.hex()}, 'sig': 'fuzz', 'msg': 'input saved by libFuzzer'}, open(rp, 'w'))
         r = subprocess.run([os.path.join(H, 'target/release/mhv'), 'replay', rp], capture_output=True, text=True, env=dict(env, MHV_ROOT=ROOT))
         if r.returncode == 1:
             confirmed += 1; rc = 1
@@ -70,7 +107,7 @@ def main():
     if rc == 0 and unconfirmed:
         rc = 2
         print('INCONCLUSIVE property=%s %d input(s) saved by libFuzzer do not reproduce through the optimised replay' % (pid, unconfirmed))
-    info = {'targets': ['fuzz_' + t for t in targets], 'jobs': len(procs), 'runs_per_job': runs, 'executions': cases, 'nontrivial_executions': nontrivial,
+    info = {'targets': ['fuzz_' + t for t in targets] + (['fuzz_any:' + a for a, _ in anysubs] if jobs_any else []), 'jobs': len(procs), 'runs_per_job': runs, 'runs_per_choice_byte_job': {a: runs_for(a) for a, _ in anysubs} if jobs_any else {}, 'executions': cases, 'nontrivial_executions': nontrivial,
             'saved_inputs': len(arts), 'confirmed_violations': confirmed, 'wall_s': round(time.time() - t0, 1),
             'note': 'libFuzzer -seed pins a campaign only approximately; the saved input is the reproducible unit'}
     shutil.rmtree(scratch, ignore_errors=True)
